@@ -30,7 +30,7 @@ ASSUMPTIONS = ['oracle: the model re-implemented from its definition and differe
 MIN_REACH = {'fitting:jacobian': 1, 'fitting:lmfit_jacobian': 1, 'fitting:covar_errors': 1, 'fitting:errors': 1,
              'fitting:do_lmfit': 1}
 MIN_COUNTERS = {'contract_Cmatrix': 10, 'contract_Bmatrix': 5, 'contract_component_errors': 10, 'component_shape_errors_judged': 5, 'contract_jacobian': 50, 'contract_lmfit_jacobian': 50, 'contract_covar_errors': 50,
-                'sigma_entries_judged': 100, 'noise_model_selection_judged': 20, 'insitu_priorized_fits': 5, 'insitu_fits_seen': 20, 'priorized_rows_free_errors_judged': 5, 'component_position_errors_judged': 10}
+                'sigma_entries_judged': 100, 'noise_model_selection_judged': 20, 'insitu_priorized_fits': 5, 'insitu_fits_seen': 20, 'priorized_rows_free_errors_judged': 5, 'component_position_errors_judged': 10, 'models_with_parameters_added_in_another_order': 20}
 
 _OBS = None
 _installed = False
@@ -551,14 +551,26 @@ def install():
 
 
 # ------------------------------------------------------------------------------------------ workload
-def make_params(comps, free):
+def make_params(comps, free, order='documented'):
+    """order: the order in which the entries are ADDED to the Parameters object (the documented order of derivative rows and of
+    the sigmas does not depend on it): documented | by_kind | reversed_components | shape_first | components_first"""
     import lmfit
     p = lmfit.Parameters()
-    for k, c in enumerate(comps):
-        for nm in NAMES:
-            p.add('c%d_%s' % (k, nm), value=c[nm], vary=nm in free[k])
+    items = [(k, nm) for k in range(len(comps)) for nm in NAMES]
+    if order == 'by_kind':
+        items = [(k, nm) for nm in NAMES for k in range(len(comps))]
+    elif order == 'reversed_components':
+        items = [(k, nm) for k in reversed(range(len(comps))) for nm in NAMES]
+    elif order == 'shape_first':
+        items = [(k, nm) for k in range(len(comps)) for nm in ('sx', 'sy', 'theta', 'amp', 'xo', 'yo')]
+    if order == 'components_first':
+        p.add('components', value=len(comps), vary=False)
+    for k, nm in items:
+        p.add('c%d_%s' % (k, nm), value=comps[k][nm], vary=nm in free[k])
+    for k in range(len(comps)):
         p.add('c%d_flags' % k, value=0, vary=False)
-    p.add('components', value=len(comps), vary=False)
+    if order != 'components_first':
+        p.add('components', value=len(comps), vary=False)
     return p
 
 
@@ -608,7 +620,12 @@ def _grid(rng):
 
 
 def _drive(o, fitting, comps, free, data, mode, rng):
-    pars = make_params(comps, free)
+    order = 'documented'
+    if rng.random() < 0.3:
+        order = str(rng.choice(['by_kind', 'reversed_components', 'shape_first', 'components_first']))
+        o.count('models_with_parameters_added_in_another_order')
+    o.see('parameter_insertion_order', order)
+    pars = make_params(comps, free, order)
     mask = np.where(np.isfinite(data))
     x, y = mask
     nfree = sum(len(f) for f in free)
